@@ -24,6 +24,7 @@ def step (line : String) : String :=
   | "fview" :: rest => runFview (parseKV rest)
   | "rview2" :: rest => runRview2 (parseKV rest)
   | "rview3" :: rest => runRview3 (parseKV rest)
+  | "fview3" :: rest => runFview3 (parseKV rest)
   | _ => "bad-op"
 
 partial def loop (h : IO.FS.Stream) (out : IO.FS.Stream) : IO Unit := do
